@@ -201,8 +201,18 @@ def random_case(rng):
     if x and rng.random() < 0.3:
         x = x[:-1]
         perts.add("no_final_newline")
+    io = None
+    if x and rng.random() < 0.15:
+        # carriage returns (in memory only "\n" ends a line and nothing is translated): a lone CR
+        # somewhere, or CR LF at the end of a line
+        for _ in range(rng.randrange(1, 3)):
+            nl = [i for i, ch in enumerate(x) if ch == "\n"]
+            i = rng.choice(nl) if nl and rng.random() < 0.6 else rng.randrange(len(x))
+            x = x[:i] + "\r" + x[i:]
+        perts.add("carriage_return")
+    else:
+        io = fsup.io_of(rng, [x])
     case = {"regs": regs, "x": codec.enc_str(x), "perts": sorted(perts)}
-    io = fsup.io_of(rng, [x])
     if io:
         case["io"] = io  # read from / written to paths on disk, in the class's declared encoding
     return case
